@@ -112,6 +112,11 @@ def euler1d_records(rnd, tier):
                         prm = {"p": rnd.choice([x for x in (0.25, 0.5, 1.0, 2.0) if x < 0.97 * ptI] or [p])}
                 elif name == "dirichlet":
                     prm = {"prim": [rho * 1.3, -u * 0.5, p * 0.7]}
+                # the user's dictionary may carry keys this condition does not use (one dictionary switched between condition
+                # types; "'p' will be ignored if unused"): decoy values for every key of the family that is not this condition's own
+                if c % 2 == 1:
+                    for k_, v_ in (("p", p * 0.37), ("ptot", ptI * 2.9), ("rttot", rtI * 0.61), ("angle", 33.0)):
+                        prm.setdefault(k_, v_)
                 try:
                     with np.errstate(all="ignore"):
                         out = primed_bc(model, name, dir_, [np.array([x]) for x in I], dict(prm, type=name))
